@@ -338,20 +338,20 @@ Proof.
     + eapply covers_kid_false; [exact S1 | exact Ha1|]. apply D1; assumption.
 Qed.
 
-Definition scan_kids (enc : dict Z) (sm : Z) (t : tree) : list tree -> tree :=
+Definition scan_kids (ee : bool) (enc : dict Z) (sm : Z) (t : tree) : list tree -> tree :=
   fix scan (ks : list tree) : tree :=
     match ks with
     | [] => t
-    | k :: r => match visit enc sm k t with Some res => res | None => scan r end
+    | k :: r => match visit ee enc sm k t with Some res => res | None => scan r end
     end.
 
-Lemma visit_eq enc sm t last :
-  visit enc sm t last =
+Lemma visit_eq ee enc sm t last :
+  visit ee enc sm t last =
   let cm := enc_get enc (t_id t) in
   let cms := Z.land cm sm in
   if Z.eqb cms 0 then None
   else if Z.eqb cms sm then
-    if Z.eqb cm sm then Some (stepdown t) else Some (scan_kids enc sm t (t_kids t))
+    if Z.eqb cm sm && ee then Some (stepdown t) else Some (scan_kids ee enc sm t (t_kids t))
   else Some last.
 Proof. destruct t; reflexivity. Qed.
 
@@ -362,7 +362,7 @@ Proof.
 Qed.
 
 Section Descent.
-Variables (ns : nspace) (S : list Z) (enc : dict Z).
+Variables (ee : bool) (ns : nspace) (S : list Z) (enc : dict Z).
 Hypothesis Hinj : ns_inj ns.
 Hypothesis HS : forall a, In a S -> member ns a.
 Hypothesis Hne : S <> [].
@@ -406,11 +406,11 @@ Qed.
 
 Definition visit_ok (st : tree) : Prop :=
   forall last, current ns enc st -> good_leaves st -> members_ok ns st ->
-    visit enc sm st last = if covers S st then deepest S st else if overlap S st then Some last else None.
+    visit ee enc sm st last = if covers S st then deepest S st else if overlap S st then Some last else None.
 
 Lemma scan_spec st ks :
   Forall visit_ok ks -> (forall k, In k ks -> current ns enc k /\ members_ok ns k) -> good_kids ks ->
-  scan_kids enc sm st ks = match first_some (deepest S) ks with Some r => r | None => st end.
+  scan_kids ee enc sm st ks = match first_some (deepest S) ks with Some r => r | None => st end.
 Proof.
   induction ks as [|k rest IH]; intros F A G; [reflexivity|].
   inversion F as [|? ? F1 F2]; subst. destruct (good_kids_cons _ _ G) as [G1 [G2 D]].
@@ -431,8 +431,9 @@ Proof.
   rewrite test_overlap, test_covers by exact M.
   destruct (overlap S (T i x lb e ks)) eqn:Ov; simpl negb; cbv iota.
   - destruct (covers S (T i x lb e ks)) eqn:Cv; [|reflexivity].
-    destruct (Z.eqb (lmask ns (T i x lb e ks)) sm) eqn:Eq.
-    + symmetry. apply deepest_equiv; [exact G | exact Cv | apply test_equal; assumption].
+    destruct (Z.eqb (lmask ns (T i x lb e ks)) sm && ee) eqn:Eq.
+    + apply andb_true_iff in Eq. destruct Eq as [Eq _].
+      symmetry. apply deepest_equiv; [exact G | exact Cv | apply test_equal; assumption].
     + rewrite deepest_node, Cv. simpl t_kids. f_equal. destruct ks as [|k r]; [reflexivity|].
       rewrite (scan_spec (T i x lb e (k :: r)) (k :: r) IH).
       * destruct (first_some (deepest S) (k :: r)); reflexivity.
@@ -458,7 +459,7 @@ Proof.
     rewrite IH by (intros b Hb; apply M; right; exact Hb). rewrite Z.lor_assoc. reflexivity.
 Qed.
 
-Lemma tree_mrca_taxa_l ns t rooted enc S start updated :
+Lemma tree_mrca_taxa_l ee ns t rooted enc S start updated :
   ns_inj ns -> (forall a, In a S -> member ns a) -> S <> [] ->
   let sid := match start with Some i => i | None => t_id t end in
   let refresh := mrca_refreshes enc sid updated in
@@ -466,7 +467,7 @@ Lemma tree_mrca_taxa_l ns t rooted enc S start updated :
   good_leaves t' -> members_ok ns t' -> NoDup (ids t') ->
   (refresh = true \/ current ns enc t) ->
   forall st, find_node sid t' = Some st ->
-  exists mt', tree_mrca ns (mkMt t rooted enc) (ByTaxa S) start updated
+  exists mt', tree_mrca ee ns (mkMt t rooted enc) (ByTaxa S) start updated
               = (Ok (option_map t_id (deepest S st)), mt')
               /\ mt_tree mt' = t' /\ (refresh = false -> mt' = mkMt t rooted enc).
 Proof.
@@ -499,13 +500,13 @@ Proof.
   unfold sm. rewrite (test_covers ns S Hinj HS st Mst).
   exists mt'. split; [|split; assumption].
   destruct (covers S st) eqn:Cv; simpl negb; cbv iota.
-  - rewrite (visit_spec ns S (mt_enc mt') Hinj HS Hne st st Cst Gst Mst). rewrite Cv.
+  - rewrite (visit_spec ee ns S (mt_enc mt') Hinj HS Hne st st Cst Gst Mst). rewrite Cv.
     destruct (deepest_some S st Cv) as [r Hr]. rewrite Hr. reflexivity.
   - rewrite (deepest_none S st Cv). reflexivity.
 Qed.
 
-Lemma tree_mrca_empty ns mt start updated :
-  tree_mrca ns mt (ByTaxa []) start updated = (Err ValueErr, mt).
+Lemma tree_mrca_empty ee ns mt start updated :
+  tree_mrca ee ns mt (ByTaxa []) start updated = (Err ValueErr, mt).
 Proof. reflexivity. Qed.
 
 Lemma taxa_bitmask_nonmember ns l a : In a l -> ns_bit ns a = None -> forall acc, taxa_bitmask ns l acc = Err KeyErr.
@@ -516,25 +517,25 @@ Proof.
   - reflexivity.
 Qed.
 
-Lemma tree_mrca_nonmember ns mt S a start updated :
-  In a S -> ns_bit ns a = None -> tree_mrca ns mt (ByTaxa S) start updated = (Err KeyErr, mt).
+Lemma tree_mrca_nonmember ee ns mt S a start updated :
+  In a S -> ns_bit ns a = None -> tree_mrca ee ns mt (ByTaxa S) start updated = (Err KeyErr, mt).
 Proof.
   intros Ha Hn. unfold tree_mrca. simpl mrca_mask. rewrite (taxa_bitmask_nonmember ns S a Ha Hn). reflexivity.
 Qed.
 
 (* the other two argument forms reduce to the first *)
-Lemma tree_mrca_labels ns mt ls start updated :
-  tree_mrca ns mt (ByLabels ls) start updated =
+Lemma tree_mrca_labels ee ns mt ls start updated :
+  tree_mrca ee ns mt (ByLabels ls) start updated =
   if Nat.eqb (length (get_taxa ns ls)) (length ls)
-  then tree_mrca ns mt (ByTaxa (get_taxa ns ls)) start updated
+  then tree_mrca ee ns mt (ByTaxa (get_taxa ns ls)) start updated
   else (Err KeyErr, mt).
 Proof.
   unfold tree_mrca. simpl mrca_mask. destruct (Nat.eqb (length (get_taxa ns ls)) (length ls)); reflexivity.
 Qed.
 
-Lemma tree_mrca_mask ns mt S start updated :
+Lemma tree_mrca_mask ee ns mt S start updated :
   (forall a, In a S -> member ns a) ->
-  tree_mrca ns mt (ByMask (mask_of (bitf ns) S)) start updated = tree_mrca ns mt (ByTaxa S) start updated.
+  tree_mrca ee ns mt (ByMask (mask_of (bitf ns) S)) start updated = tree_mrca ee ns mt (ByTaxa S) start updated.
 Proof.
   intro HS. unfold tree_mrca. simpl mrca_mask. rewrite (taxa_bitmask_members ns S HS 0), Z.lor_0_l. reflexivity.
 Qed.
